@@ -356,7 +356,7 @@ func c07Replay(v *Violation) string {
 func init() {
 	register(&check{
 		prop: "C07", name: "pipeline-schedules", level: "model_checking",
-		rule: "Stateless model checking of the implementation: the package is source-instrumented (cmd/vinstr) so every go statement, channel operation, select, WaitGroup and atomic operation is a scheduling point of a controlled scheduler (vsched) that runs one thread at a time; for each of 10 (11) documents above the 8 KiB threshold (valid, stage-2 error early/late, stage-1 error early/late, both, NDJSON, no-structurals tail, just above threshold; 6 to 40 index buffers) every interleaving of producer and consumer with at most 2 (thorough 3) preemptions is executed, and additionally every interleaving outright with pruning on an exact state key (thread progress, channel contents, tape words, cursor). Oracle: outcome (error or exact tape) equals the default schedule's, which is itself checked against the independent grammar model and reference tree; no deadlock, no livelock, all threads exit. states=scheduling points visited (bounded) + distinct state keys (unbounded), transitions=branches pushed, traces_validated=complete schedules judged; distinct_nontrivial=distinct (document, outcome) pairs.",
+		rule:   "Stateless model checking of the implementation: the package is source-instrumented (cmd/vinstr) so every go statement, channel operation, select, WaitGroup and atomic operation is a scheduling point of a controlled scheduler (vsched) that runs one thread at a time; for each of 10 (11) documents above the 8 KiB threshold (valid, stage-2 error early/late, stage-1 error early/late, both, NDJSON, no-structurals tail, just above threshold; 6 to 40 index buffers) every interleaving of producer and consumer with at most 2 (thorough 3) preemptions is executed, and additionally every interleaving outright with pruning on an exact state key (thread progress, channel contents, tape words, cursor). Oracle: outcome (error or exact tape) equals the default schedule's, which is itself checked against the independent grammar model and reference tree; no deadlock, no livelock, all threads exit. states=scheduling points visited (bounded) + distinct state keys (unbounded), transitions=branches pushed, traces_validated=complete schedules judged; distinct_nontrivial=distinct (document, outcome) pairs.",
 		assume: []string{"interleaving granularity = synchronisation operations; plain-memory races and weak memory are outside this exploration (supported by the free-running -race pass of C20)", "assembly kernels and everything between two scheduling points are atomic steps"},
 		body:   c07Body,
 		replay: c07Replay,
